@@ -53,7 +53,7 @@ def main():
     r = subprocess.run([os.path.join(V, "tools", "trymutant.py"), os.path.join(seed, "patch.diff")], cwd=V, capture_output=True, text=True, env=dict(os.environ, VERIF_SELFTEST="1"))
     print(r.stdout[-6000:])
     last = json.loads(r.stdout.strip().split("\n")[-1])
-    dst = os.path.join(V, "seeded", "%s_%s" % (pid, X))
+    dst = os.path.join(V, "seeded", "%s_%s" % (pid, sys.argv[3] if len(sys.argv) > 3 else X))
     os.makedirs(dst, exist_ok=True)
     shutil.copy(os.path.join(seed, "patch.diff"), os.path.join(dst, "patch.diff"))
     shutil.copy(os.path.join(seed, "demo.diff"), os.path.join(dst, "demo.diff"))
